@@ -1352,8 +1352,8 @@ class TTNS(TTNBase):
                     new_shape.append(dim1 + dim2)
                     indices1.append(slice(0, dim1))
                     indices2.append(slice(dim1, dim1 + dim2))
-            if node1 is self.root:
-                # the prefactors of the two operands are folded into the root tensor
+            if node1 is self.root and self.coeff != other.coeff:
+                # different prefactors are folded into the root tensor
                 factor1, factor2 = self.coeff, other.coeff
             else:
                 factor1, factor2 = 1, 1
@@ -1369,7 +1369,8 @@ class TTNS(TTNBase):
                 new_node.qn = node1.qn.copy()
             else:
                 new_node.qn = np.concatenate([node1.qn, node2.qn], axis=0)
-        new.coeff = 1
+        if self.coeff != other.coeff:
+            new.coeff = 1
         new.check_shape()
         # assert new.check_canonical()
         return new
